@@ -15,8 +15,37 @@ theorem static_le_maxOps (ctx : Ctx) (n : Ms) (o : Nat) (h : maxOps ctx n = some
   | none => rw [hs] at h; simp [addO] at h
   | some k => rw [hs] at h; simp [addO] at h; omega
 
+theorem hasCms_append (a b : List Op) : hasCms (a ++ b) = (hasCms a || hasCms b) := by
+  simp [hasCms, List.any_append]
+theorem hasCms_cons (o : Op) (os : List Op) : hasCms (o :: os) = (o.isCms || hasCms os) := by
+  simp [hasCms]
+theorem hasCms_nil : hasCms [] = false := rfl
+
+/-- no expression of the covered set has an OP_CHECKMULTISIG. -/
+theorem hasCms_opsOf (ctx : Ctx) (h160 : Bytes → Bytes) :
+    ∀ (n : Ms) (v : Bool), inS1 n = true → hasCms (opsOf ctx h160 v n) = false
+  | .f0, _, _ | .f1, _, _ | .pk_k _, _, _ | .pk_h _, _, _ | .older _, _, _ | .after _, _, _ => by
+    simp [opsOf, hasCms_cons, hasCms_nil, Op.isCms]
+  | .hash _ _, v, _ => by cases v <;> simp [opsOf, hasCms_cons, hasCms_nil, Op.isCms]
+  | .wrap w x, v, hin => by
+    simp only [inS1, Bool.and_eq_true] at hin
+    have H := fun b => hasCms_opsOf ctx h160 x b hin.2
+    cases w <;> cases v <;> simp [opsOf, hasCms_append, hasCms_cons, hasCms_nil, Op.isCms, H] <;>
+      (split <;> simp [hasCms_cons, hasCms_nil, Op.isCms])
+  | .bin b x y, v, hin => by
+    simp only [inS1, Bool.and_eq_true] at hin
+    have Hx := fun b => hasCms_opsOf ctx h160 x b hin.1.2
+    have Hy := fun b => hasCms_opsOf ctx h160 y b hin.2
+    cases b <;> simp [opsOf, hasCms_append, hasCms_cons, hasCms_nil, Op.isCms, Hx, Hy]
+  | .andor x y z, _, hin => by
+    simp only [inS1, Bool.and_eq_true] at hin
+    simp [opsOf, hasCms_append, hasCms_cons, hasCms_nil, Op.isCms,
+      hasCms_opsOf ctx h160 x false hin.1.1,
+      hasCms_opsOf ctx h160 y false hin.1.2, hasCms_opsOf ctx h160 z false hin.2]
+  | .multi _ _, _, h | .multi_a _ _, _, h | .thresh _ _ _, _, h => by simp [inS1] at h
+
 theorem engineLimits_of_withinLimits (ctx : Ctx) (h160 : Bytes → Bytes)
-    (hh : ∀ b, (h160 b).length = 20) (n : Ms) (hshape : shaped ctx n = true)
+    (hh : ∀ b, (h160 b).length = 20) (n : Ms) (hin : inS1 n = true) (hshape : shaped ctx n = true)
     (hlim : withinLimits ctx n = true) (hops : (maxOps ctx n).isSome = true) (s : List Bytes)
     (h520 : ∀ e ∈ s, e.length ≤ 520) (h1000 : s.length ≤ MAX_STACK_SIZE) :
     withinEngineLimits ctx (opsOf ctx h160 false n) s = true := by
@@ -37,7 +66,7 @@ theorem engineLimits_of_withinLimits (ctx : Ctx) (h160 : Bytes → Bytes)
       rw [ser_opsOf, ← scriptSize_eq_length .p2wsh h160 hh n false hshape]
       have : maxScriptSize .p2wsh = 3600 := rfl
       omega
-    simp [h1, h2, h1000]
+    simp [h1, h2, h1000, hasCms_opsOf .p2wsh h160 n false hin]
 
 theorem accepts_of_sat (E : EvalEnv) (hsig0 : ∀ k, E.sigOK k [] = false) (ctx : Ctx)
     (h160 : Bytes → Bytes) (hH : ∀ k, E.hashF .hash160 k = h160 k)
@@ -51,7 +80,7 @@ theorem accepts_of_sat (E : EvalEnv) (hsig0 : ∀ k, E.sigOK k [] = false) (ctx 
   obtain ⟨v, hv, _, hrun⟩ := bs s [] [] [] rfl hs
   simp only [List.append_nil] at hrun
   unfold accepts
-  rw [engineLimits_of_withinLimits ctx h160 hh n hshape hlim hops s h520 h1000, hrun]
+  rw [engineLimits_of_withinLimits ctx h160 hh n (inS1_of_s1Typed ctx n h) hshape hlim hops s h520 h1000, hrun]
   simp [truthy_cast hv]
 
 theorem rejects_of_dsat (E : EvalEnv) (hsig0 : ∀ k, E.sigOK k [] = false) (ctx : Ctx)
